@@ -21,6 +21,11 @@ package redact
 //   split    builder.StringBuilder: a payload written in one call vs. split at every byte position over two
 //            calls (and byte by byte) made in the same mode, in several surrounding contexts
 //   sampled  all of the above on seeded random strings longer than the exhaustive bound (VERIF_SEED)
+//
+// Besides the byte alphabet of the statement, three symbol alphabets are enumerated for all laws: whole and
+// partial markers as single symbols (c10Pieces: adjacent markers within few symbols), the 3-byte sequences that
+// are one byte off a marker (c10NearMiss: must come out unchanged), and lead bytes of other multi-byte
+// encodings (c10Leads: truncated foreign sequences in front of markers and line feeds).
 
 import (
 	"bytes"
@@ -49,6 +54,19 @@ var c10Bytes = [][]byte{{0xE2}, {0x80}, {0xB9}, {0xBA}, {'a'}, {' '}, {'\n'}, {'
 
 // c10Pieces: whole markers and partial markers as single symbols (reaches adjacent markers within few symbols).
 var c10Pieces = [][]byte{{'a'}, {'\n'}, {0xE2, 0x80, 0xB9}, {0xE2, 0x80, 0xBA}, {0xE2}, {0xE2, 0x80}, {0x80}, {0xB9}, {0xBA}, {'?'}, {' '}}
+
+// c10NearMiss: the 3-byte sequences that differ from a marker by +-1 in exactly one byte (they are NOT markers
+// and must come out unchanged), plus the markers themselves, LF and an ordinary byte.
+var c10NearMiss = [][]byte{
+	{0xE1, 0x80, 0xB9}, {0xE3, 0x80, 0xB9}, {0xE1, 0x80, 0xBA}, {0xE3, 0x80, 0xBA},
+	{0xE2, 0x7F, 0xB9}, {0xE2, 0x81, 0xB9}, {0xE2, 0x7F, 0xBA}, {0xE2, 0x81, 0xBA},
+	{0xE2, 0x80, 0xB8}, {0xE2, 0x80, 0xBB},
+	{0xE2, 0x80, 0xB9}, {0xE2, 0x80, 0xBA}, {'\n'}, {'a'},
+}
+
+// c10Leads: lead bytes of other multi-byte encodings (2, 3 and 4 bytes long), a continuation byte, the markers'
+// own lead byte, both markers, LF and an ordinary byte: truncated foreign sequences next to markers / line feeds.
+var c10Leads = [][]byte{{0xC3}, {0xE1}, {0xF0}, {0x97}, {0xE2}, {0xE2, 0x80, 0xB9}, {0xE2, 0x80, 0xBA}, {'\n'}, {'a'}}
 
 var (
 	c10StartB    = []byte{0xE2, 0x80, 0xB9}
@@ -201,14 +219,19 @@ type c10Reporter struct {
 	n    int
 	max  int
 	stop int32 // set (atomically) once max failures were reported
+	done map[string]bool
 }
 
 func (r *c10Reporter) fail(call string, out []byte, why string) {
 	r.mu.Lock()
 	defer r.mu.Unlock()
-	if r.n >= r.max {
+	if r.n >= r.max || r.done[call+"|"+why] {
 		return
 	}
+	if r.done == nil {
+		r.done = map[string]bool{}
+	}
+	r.done[call+"|"+why] = true
 	r.n++
 	if r.n >= r.max {
 		atomic.StoreInt32(&r.stop, 1)
@@ -219,6 +242,17 @@ func (r *c10Reporter) fail(call string, out []byte, why string) {
 }
 
 func (r *c10Reporter) full() bool { return atomic.LoadInt32(&r.stop) != 0 }
+
+func (r *c10Reporter) setMax(n int) {
+	r.mu.Lock()
+	defer r.mu.Unlock()
+	r.max = n
+	if r.n >= r.max {
+		atomic.StoreInt32(&r.stop, 1)
+	} else {
+		atomic.StoreInt32(&r.stop, 0)
+	}
+}
 
 func (r *c10Reporter) count() int {
 	r.mu.Lock()
@@ -233,9 +267,20 @@ type c10Ctx struct {
 	rep                                    *c10Reporter
 	public, internal, chained, split       c10Law
 	sampled                                c10Law
-	libCross                               bool // also cross-check with the library's own Redact/StripMarkers
-	intoSampled                            bool // count everything under the "sampled" law
+	seen                                   [5]bool // a violation was already reported for this call expression
+	libCross                               bool    // also cross-check with the library's own Redact/StripMarkers
+	intoSampled                            bool    // count everything under the "sampled" law
 	scratchA, scratchB, scratchC, scratchD []byte
+	scratchIn, scratchAgain                []byte
+}
+
+// bad reports at most one violation per call expression (slot) and check invocation.
+func (c *c10Ctx) bad(slot int, call string, out []byte, why string) {
+	if c.seen[slot] {
+		return
+	}
+	c.seen[slot] = true
+	c.rep.fail(call, out, why)
 }
 
 func (c *c10Ctx) bump(l *c10Law, nontrivial bool) {
@@ -259,6 +304,7 @@ func (c *c10Ctx) merge(o *c10Ctx) {
 // law "public": EscapeMarkers and EscapeBytes
 
 func (c *c10Ctx) checkPublic(w []byte) {
+	c.seen[0], c.seen[1] = false, false
 	q := func() string { return fmt.Sprintf("%q", w) }
 	call := func() string { return "EscapeBytes([]byte(" + q() + "))" }
 	keep := append(c.scratchD[:0], w...)
@@ -272,14 +318,16 @@ func (c *c10Ctx) checkPublic(w []byte) {
 	// EscapeMarkers(b) contains no marker and equals b with each marker occurrence replaced by '?'.
 	em := EscapeMarkers(w)
 	if c10HasMarker(em) {
-		c.rep.fail("EscapeMarkers([]byte("+q()+"))", em, "the result still contains a marker")
+		c.bad(0, "EscapeMarkers([]byte("+q()+"))", em, "the result still contains a marker")
 	}
 	if !bytes.Equal(em, esc) {
-		c.rep.fail("EscapeMarkers([]byte("+q()+"))", em, "not b with each marker occurrence replaced by '?' (a byte that is not part of a marker was altered, or a marker was not replaced)")
+		c.bad(0, "EscapeMarkers([]byte("+q()+"))", em, "not b with each marker occurrence replaced by '?' (a byte that is not part of a marker was altered, or a marker was not replaced)")
 	}
 	// idempotent
-	if em2 := EscapeMarkers(em); !bytes.Equal(em2, em) {
-		c.rep.fail("EscapeMarkers(EscapeMarkers([]byte("+q()+")))", em2, "escaping is not idempotent")
+	if bytes.Equal(em, w) {
+		// nothing was replaced: escaping again is the same call
+	} else if em2 := EscapeMarkers(em); !bytes.Equal(em2, em) {
+		c.bad(0, "EscapeMarkers(EscapeMarkers([]byte("+q()+")))", em2, "escaping is not idempotent")
 	}
 
 	// EscapeBytes(b) is a well-formed, line-safe redactable ...
@@ -288,40 +336,40 @@ func (c *c10Ctx) checkPublic(w []byte) {
 	depth, wf, ls := c10Scan(eb, &outside)
 	c.scratchB = outside
 	if !wf || depth != 0 {
-		c.rep.fail(call(), eb, "the result is not well-formed (delimiters do not alternate / envelope left open)")
+		c.bad(1, call(), eb, "the result is not well-formed (delimiters do not alternate / envelope left open)")
 	}
 	if !ls {
-		c.rep.fail(call(), eb, "the result is not line-safe (line feed inside an envelope)")
+		c.bad(1, call(), eb, "the result is not line-safe (line feed inside an envelope)")
 	}
 	// ... whose stripped form is that same escaped text (plus one '?' if b ends in a truncated sequence) ...
 	st := c10RefStrip(c.scratchC[:0], eb)
 	c.scratchC = st
 	if !c10GuardOK(st, esc, kind) {
-		c.rep.fail(call(), eb, c10GuardWhy(kind, "stripped form"))
+		c.bad(1, call(), eb, c10GuardWhy(kind, "stripped form"))
 	}
 	// ... and whose redacted form consists solely of redacted markers and the line feeds of b.
 	if !bytes.Equal(outside, lfs) {
-		c.rep.fail(call(), eb, "the redacted form does not consist solely of redacted markers and the line feeds of b (text outside envelopes differs from b's line feeds)")
+		c.bad(1, call(), eb, "the redacted form does not consist solely of redacted markers and the line feeds of b (text outside envelopes differs from b's line feeds)")
 	}
 	if c.libCross {
 		red := []byte(RedactableBytes(eb).Redact())
 		if rem := bytes.Replace(red, c10RedactedB, nil, -1); !bytes.Equal(rem, lfs) {
-			c.rep.fail(call()+".Redact()", red, "the redacted form does not consist solely of redacted markers and the line feeds of b")
+			c.bad(1, call()+".Redact()", red, "the redacted form does not consist solely of redacted markers and the line feeds of b")
 		}
 		if ls2 := []byte(RedactableBytes(eb).StripMarkers()); !c10GuardOK(ls2, esc, kind) {
-			c.rep.fail(call()+".StripMarkers()", ls2, c10GuardWhy(kind, "stripped form"))
+			c.bad(1, call()+".StripMarkers()", ls2, c10GuardWhy(kind, "stripped form"))
 		}
 	}
 	// idempotent: the escaped text is a fixed point of both escapers
-	if wf && depth == 0 && !c10HasMarker(st) {
+	if wf && depth == 0 && !c10HasMarker(st) && !bytes.Equal(st, w) { // (st == w: same call)
 		eb2 := []byte(EscapeBytes(st))
 		st2 := c10RefStrip(nil, eb2)
 		if !bytes.Equal(st2, st) {
-			c.rep.fail("EscapeBytes(stripped(EscapeBytes([]byte("+q()+"))))", eb2, "escaping is not idempotent: escaping the already escaped text changes it")
+			c.bad(1, "EscapeBytes(stripped(EscapeBytes([]byte("+q()+"))))", eb2, "escaping is not idempotent: escaping the already escaped text changes it")
 		}
 	}
 	if !bytes.Equal(keep, w) {
-		c.rep.fail(call(), w, "the argument slice was modified")
+		c.bad(1, call(), w, "the argument slice was modified")
 	}
 }
 
@@ -367,18 +415,20 @@ func (c *c10Ctx) checkInternal(b []byte, startLoc int, bnl bool, law *c10Law) (r
 	if !ok {
 		return nil, false
 	}
+	c.seen[2] = false
 	prefix, suffix := b[:startLoc], b[startLoc:]
 	kind := c10EndKind(b)
 	lfs := c10LFs(nil, suffix)
 	c.bump(law, c10HasMarker(suffix) || (bnl && len(lfs) > 0) || kind == c10EndTruncated)
 
-	in := append([]byte(nil), b...)
-	res = escape.InternalEscapeBytes(in, startLoc, bnl, false)
+	in := append(c.scratchIn[:0], b...)
+	c.scratchIn = in
+	res = escape.InternalEscapeBytes(in, startLoc, bnl, false) // may alias in: valid until the next checkInternal
 	call := func() string {
 		return fmt.Sprintf("escape.InternalEscapeBytes([]byte(%q), %d, %t, false)", b, startLoc, bnl)
 	}
 	if !bytes.Equal(in, b) {
-		c.rep.fail(call(), in, "the input buffer was modified")
+		c.bad(2, call(), in, "the input buffer was modified")
 	}
 
 	// content: bytes that are not part of a marker are unchanged, every marker of the suffix became '?'
@@ -388,14 +438,14 @@ func (c *c10Ctx) checkInternal(b []byte, startLoc int, bnl bool, law *c10Law) (r
 	got := c10RefStrip(c.scratchB[:0], res)
 	c.scratchB = got
 	if !c10GuardOK(got, want, kind) {
-		c.rep.fail(call(), res, c10GuardWhy(kind, "result without the delimiters placed by the library"))
+		c.bad(2, call(), res, c10GuardWhy(kind, "result without the delimiters placed by the library"))
 	}
 	if !bnl {
 		// no delimiter is placed at all: exact result
 		exact := c10RefEscape(append(c.scratchC[:0], prefix...), suffix)
 		c.scratchC = exact
 		if !c10GuardOK(res, exact, kind) {
-			c.rep.fail(call(), res, "without line splitting the result must be the prefix followed by the suffix with each marker replaced by '?' (plus the '?' guard after a truncated sequence)")
+			c.bad(2, call(), res, "without line splitting the result must be the prefix followed by the suffix with each marker replaced by '?' (plus the '?' guard after a truncated sequence)")
 		}
 	}
 	// structure: well-formed, line-safe, same nesting at the end as at startLoc
@@ -403,37 +453,41 @@ func (c *c10Ctx) checkInternal(b []byte, startLoc int, bnl bool, law *c10Law) (r
 	depth, wf, ls := c10Scan(res, &outside)
 	c.scratchD = outside
 	if !wf {
-		c.rep.fail(call(), res, "the result is not well-formed (delimiters do not alternate)")
+		c.bad(2, call(), res, "the result is not well-formed (delimiters do not alternate)")
 	}
 	if depth != depth0 {
-		c.rep.fail(call(), res, fmt.Sprintf("envelope nesting at the end (%d) differs from the nesting at startLoc (%d)", depth, depth0))
+		c.bad(2, call(), res, fmt.Sprintf("envelope nesting at the end (%d) differs from the nesting at startLoc (%d)", depth, depth0))
 	}
 	if !ls {
-		c.rep.fail(call(), res, "the result is not line-safe (line feed inside an envelope)")
+		c.bad(2, call(), res, "the result is not line-safe (line feed inside an envelope)")
 	}
 	if !c10Clean(res) {
-		c.rep.fail(call(), res, "the result ends in a partial marker that a later write could complete")
+		c.bad(2, call(), res, "the result ends in a partial marker that a later write could complete")
 	}
 	// what is outside envelopes: the prefix's safe text, then (inside an envelope) only the suffix's line feeds;
 	// (outside an envelope) the whole escaped suffix
-	wantOut := []byte(nil)
-	c10Scan(prefix, &wantOut)
 	if depth0 == 1 {
+		wantOut := []byte(nil)
+		c10Scan(prefix, &wantOut)
 		wantOut = append(wantOut, lfs...)
 		if !bytes.Equal(outside, wantOut) {
-			c.rep.fail(call(), res, "payload bytes other than line feeds ended up outside the envelopes (redacted form is more than redacted markers and line feeds)")
+			c.bad(2, call(), res, "payload bytes other than line feeds ended up outside the envelopes (redacted form is more than redacted markers and line feeds)")
 		}
 	}
 	// idempotent: nothing left to escape after the call
-	if wf && depth == depth0 {
-		again := escape.InternalEscapeBytes(append([]byte(nil), res...), len(res), bnl, false)
+	// (when nothing was rewritten and no guard was due, the second call from startLoc is the same call and the
+	// call at the end is the enumerated case (b, len(b)): skipped)
+	if wf && depth == depth0 && !(kind == c10EndValid && bytes.Equal(res, b)) {
+		c.scratchAgain = append(c.scratchAgain[:0], res...)
+		again := escape.InternalEscapeBytes(c.scratchAgain, len(res), bnl, false)
 		if !bytes.Equal(again, res) {
-			c.rep.fail(fmt.Sprintf("escape.InternalEscapeBytes([]byte(%q), %d, %t, false)", res, len(res), bnl), again, "escaping is not idempotent: a second call at the end of the escaped result changes it")
+			c.bad(2, fmt.Sprintf("escape.InternalEscapeBytes([]byte(%q), %d, %t, false)", res, len(res), bnl), again, "escaping is not idempotent: a second call at the end of the escaped result changes it")
 		}
 		if !bnl && len(res) >= startLoc {
-			again = escape.InternalEscapeBytes(append([]byte(nil), res...), startLoc, false, false)
+			c.scratchAgain = append(c.scratchAgain[:0], res...)
+			again = escape.InternalEscapeBytes(c.scratchAgain, startLoc, false, false)
 			if !bytes.Equal(again, res) {
-				c.rep.fail(fmt.Sprintf("escape.InternalEscapeBytes([]byte(%q), %d, false, false)", res, startLoc), again, "escaping is not idempotent: escaping the escaped suffix again changes it")
+				c.bad(2, fmt.Sprintf("escape.InternalEscapeBytes([]byte(%q), %d, false, false)", res, startLoc), again, "escaping is not idempotent: escaping the escaped suffix again changes it")
 			}
 		}
 	}
@@ -453,6 +507,7 @@ func (c *c10Ctx) checkOffsets(b []byte) {
 func (c *c10Ctx) checkChained(w []byte) {
 	for _, bnl := range []bool{false, true} {
 		for j := 0; j <= len(w); j++ {
+			c.seen[3] = false
 			var buf []byte
 			if bnl {
 				buf = append(buf, c10StartB...)
@@ -465,7 +520,7 @@ func (c *c10Ctx) checkChained(w []byte) {
 			}
 			buf2 := append(append([]byte(nil), r1...), w[j:]...)
 			if _, ok := c10Admissible(buf2, len(r1), bnl); !ok {
-				c.rep.fail(fmt.Sprintf("escape.InternalEscapeBytes([]byte(%q), %d, %t, false)", buf, s0, bnl), r1,
+				c.bad(3, fmt.Sprintf("escape.InternalEscapeBytes([]byte(%q), %d, %t, false)", buf, s0, bnl), r1,
 					"the result is not an admissible escaped prefix for the next write (open/closed envelope, partial marker at the end)")
 				continue
 			}
@@ -487,8 +542,8 @@ func (c *c10Ctx) checkChained(w []byte) {
 				ok = c10GuardOK(got, alt, k2)
 			}
 			if !ok {
-				c.rep.fail(fmt.Sprintf("b1 := escape.InternalEscapeBytes([]byte(%q), %d, %t, false); escape.InternalEscapeBytes(append(b1, %q...), len(b1), %t, false)", buf, s0, bnl, w[j:], bnl), r2,
-					"payload bytes that are not part of a marker were altered across two successive escapes")
+				c.bad(3, fmt.Sprintf("b1 := escape.InternalEscapeBytes([]byte(%q), %d, %t, false); escape.InternalEscapeBytes(append(b1, %q...), len(b1), %t, false)", buf, s0, bnl, w[j:], bnl), r2,
+					"after two successive escapes the content is not chunk 1 escaped followed by chunk 2 escaped (a marker was left, or a byte that is not part of a marker was altered)")
 			}
 		}
 	}
@@ -570,6 +625,7 @@ func (c *c10Ctx) checkSplit(w []byte, positions []int) {
 		}
 		for ci := range ctxs {
 			cx := &ctxs[ci]
+			c.seen[4] = false
 			// unsplit reference call
 			var b0 builder.StringBuilder
 			cx.pre(&b0)
@@ -584,29 +640,29 @@ func (c *c10Ctx) checkSplit(w []byte, positions []int) {
 			outside := []byte(nil)
 			depth, wf, ls := c10Scan(whole, &outside)
 			if !wf || depth != 0 {
-				c.rep.fail(call0(), whole, "the result is not well-formed")
+				c.bad(4, call0(), whole, "the result is not well-formed")
 			}
 			if !ls {
-				c.rep.fail(call0(), whole, "the result is not line-safe")
+				c.bad(4, call0(), whole, "the result is not line-safe")
 			}
 			st := c10RefStrip(nil, whole)
 			okStrip := len(st) >= len(cx.stripPre)+len(cx.stripPost) &&
 				bytes.HasPrefix(st, []byte(cx.stripPre)) && bytes.HasSuffix(st, []byte(cx.stripPost)) &&
 				c10GuardOK(st[len(cx.stripPre):len(st)-len(cx.stripPost)], esc, kind)
 			if !okStrip {
-				c.rep.fail(call0(), whole, c10GuardWhy(kind, "stripped payload"))
+				c.bad(4, call0(), whole, c10GuardWhy(kind, "stripped payload"))
 			}
 			if cx.payloadInside {
 				wantOut := append(append([]byte(cx.outPre), lfs...), cx.outPost...)
 				if !bytes.Equal(outside, wantOut) {
-					c.rep.fail(call0(), whole, "unsafe payload bytes other than line feeds ended up outside the envelopes")
+					c.bad(4, call0(), whole, "unsafe payload bytes other than line feeds ended up outside the envelopes")
 				}
 			} else {
 				okOut := len(outside) >= len(cx.outPre)+len(cx.outPost) &&
 					bytes.HasPrefix(outside, []byte(cx.outPre)) && bytes.HasSuffix(outside, []byte(cx.outPost)) &&
 					c10GuardOK(outside[len(cx.outPre):len(outside)-len(cx.outPost)], esc, kind)
 				if !okOut {
-					c.rep.fail(call0(), whole, "the safe payload (escaped) is not exactly the text outside the envelopes")
+					c.bad(4, call0(), whole, "the safe payload (escaped) is not exactly the text outside the envelopes")
 				}
 			}
 			c.bump(&c.split, c10HasMarker(w) || kind == c10EndTruncated)
@@ -618,7 +674,7 @@ func (c *c10Ctx) checkSplit(w []byte, positions []int) {
 				writers[wi].f(&b, w)
 				cx.post(&b)
 				if got := []byte(b.RedactableString()); !bytes.Equal(got, whole) {
-					c.rep.fail(fmt.Sprintf("StringBuilder{%s%s(%q)%s}", cx.preS, writers[wi].name, w, cx.postS), got,
+					c.bad(4, fmt.Sprintf("StringBuilder{%s%s(%q)%s}", cx.preS, writers[wi].name, w, cx.postS), got,
 						fmt.Sprintf("differs from the same payload written with %s: %q", writers[0].name, whole))
 				}
 				c.bump(&c.split, false)
@@ -635,7 +691,7 @@ func (c *c10Ctx) checkSplit(w []byte, positions []int) {
 					got := []byte(b.RedactableString())
 					c.bump(&c.split, inside)
 					if !bytes.Equal(got, whole) {
-						c.rep.fail(fmt.Sprintf("StringBuilder{%s%s(%q); %s(%q)%s}", cx.preS, writers[pr[0]].name, w[:j], writers[pr[1]].name, w[j:], cx.postS), got,
+						c.bad(4, fmt.Sprintf("StringBuilder{%s%s(%q); %s(%q)%s}", cx.preS, writers[pr[0]].name, w[:j], writers[pr[1]].name, w[j:], cx.postS), got,
 							fmt.Sprintf("splitting the payload over two calls in the same mode changes the result; unsplit %s gives %q", call0(), whole))
 					}
 				}
@@ -652,7 +708,7 @@ func (c *c10Ctx) checkSplit(w []byte, positions []int) {
 				got := []byte(b.RedactableString())
 				c.bump(&c.split, c10HasMarker(w))
 				if !bytes.Equal(got, whole) {
-					c.rep.fail(fmt.Sprintf("StringBuilder{%sfor each byte c of %q: %s(c)%s}", cx.preS, w, wr.name, cx.postS), got,
+					c.bad(4, fmt.Sprintf("StringBuilder{%sfor each byte c of %q: %s(c)%s}", cx.preS, w, wr.name, cx.postS), got,
 						fmt.Sprintf("writing the payload byte by byte in the same mode changes the result; unsplit %s gives %q", call0(), whole))
 				}
 			}
@@ -768,6 +824,30 @@ func c10Enumerate(rep *c10Reporter, alphabet [][]byte, n int, libCross bool, vis
 	return total
 }
 
+// c10Sequential visits the same space in order of increasing number of symbols, in one goroutine.
+func c10Sequential(rep *c10Reporter, alphabet [][]byte, n int, visit func(w []byte)) {
+	canon := len(alphabet) == len(c10Pieces)
+	var rec func(w []byte, left int)
+	rec = func(w []byte, left int) {
+		if rep.full() {
+			return
+		}
+		if left == 0 {
+			visit(w)
+			return
+		}
+		for _, a := range alphabet {
+			if canon && !c10Canonical(w, a) {
+				continue
+			}
+			rec(append(w, a...), left-1)
+		}
+	}
+	for k := 0; k <= n; k++ {
+		rec(make([]byte, 0, 64), k)
+	}
+}
+
 func c10Bound(l c10Law, law, rule, bound string, exhaustive bool) {
 	m, _ := json.Marshal(map[string]interface{}{"property": "C10", "law": law, "cases": l.cases, "nontrivial": l.nontrivial,
 		"nontrivial_rule": rule, "bound": bound, "exhaustive": exhaustive})
@@ -836,8 +916,21 @@ func TestVerifReplayC10(t *testing.T) {
 	if rep.count() > 0 {
 		return
 	}
-	// small, well-chosen space: at most 4 symbols out of whole markers, partial markers, LF, '?', space, 'a'
+	// small, well-chosen space: at most 4 symbols out of whole markers, partial markers, LF, '?', space, 'a'.
+	// First sequentially, shortest inputs first, so that the reported inputs are small: public API (at most 5
+	// lines), then the internal routine (at most 9 in total), then the split law (12 in total).
 	start := time.Now()
+	rep.setMax(5)
+	c10Sequential(rep, c10Pieces, 3, func(w []byte) { c.checkPublic(w) })
+	rep.setMax(9)
+	c10Sequential(rep, c10Pieces, 3, func(w []byte) { c.checkOffsets(w) })
+	rep.setMax(12)
+	c10Sequential(rep, c10Pieces, 2, func(w []byte) { c.checkChained(w); c.checkSplit(w, nil) })
+	c10Sequential(rep, c10NearMiss, 2, func(w []byte) { c.checkPublic(w); c.checkOffsets(w); c.checkChained(w); c.checkSplit(w, nil) })
+	c10Sequential(rep, c10Leads, 3, func(w []byte) { c.checkPublic(w); c.checkOffsets(w); c.checkChained(w); c.checkSplit(w, nil) })
+	if rep.count() > 0 {
+		return
+	}
 	tot := c10Enumerate(rep, c10Pieces, 4, true, func(c *c10Ctx, w []byte) {
 		c.checkPublic(w)
 		c.checkOffsets(w)
@@ -854,6 +947,9 @@ func TestVerifBoundedC10(t *testing.T) {
 	nBytes, nInternal, nPieces, nSplit, nSample := 6, 6, 4, 5, 4000
 	if thorough {
 		nBytes, nInternal, nPieces, nSplit, nSample = 8, 8, 5, 6, 60000
+		if runtime.GOMAXPROCS(0) < 4 {
+			nInternal = 7 // keep the time budget on small machines; the BOUNDED line states the bound used
+		}
 	}
 	seed := int64(1)
 	if s, err := strconv.ParseInt(os.Getenv("VERIF_SEED"), 10, 64); err == nil {
@@ -888,12 +984,24 @@ func TestVerifBoundedC10(t *testing.T) {
 		}
 	})
 	total.merge(piecesCtx)
+	total.merge(c10Enumerate(rep, c10NearMiss, 3, true, func(c *c10Ctx, w []byte) {
+		c.checkPublic(w)
+		c.checkOffsets(w)
+		c.checkChained(w)
+		c.checkSplit(w, nil)
+	}))
+	total.merge(c10Enumerate(rep, c10Leads, 4, true, func(c *c10Ctx, w []byte) {
+		c.checkPublic(w)
+		c.checkOffsets(w)
+		c.checkChained(w)
+		c.checkSplit(w, nil)
+	}))
 	t3 := time.Since(start)
 
 	// 4. sampled: longer strings
 	sc := &c10Ctx{rep: rep, libCross: true, intoSampled: true}
 	rng := rand.New(rand.NewSource(seed))
-	sampleAlphabet := append(append([][]byte(nil), c10Pieces...), []byte{0xC3}, []byte{0xC3, 0x97}, []byte{0xF0, 0x9F}, []byte{0xFF}, []byte{'\n', '\n'})
+	sampleAlphabet := append(append(append([][]byte(nil), c10Pieces...), c10NearMiss[:10]...), []byte{0xC3}, []byte{0xC3, 0x97}, []byte{0xF0, 0x9F}, []byte{0xFF}, []byte{'\n', '\n'})
 	for k := 0; k < nSample && !rep.full(); k++ {
 		var w []byte
 		target := nBytes + 1 + rng.Intn(40)
@@ -915,24 +1023,25 @@ func TestVerifBoundedC10(t *testing.T) {
 	t.Logf("C10 bounded timings: bytes %v, chained+split %v, pieces %v, sampled %v", t1, t2-t1, t3-t2, time.Since(start)-t3)
 
 	ok := rep.count() == 0
+	nm := "; plus all strings of <= 3 symbols over {the 10 three-byte sequences that are one byte off a marker, start, end, LF, 'a'} and of <= 4 symbols over {C3, E1, F0, 97, E2, start, end, LF, 'a'} (a short string spelled in several alphabets is counted once per alphabet)"
 	c10Bound(total.public,
 		"EscapeMarkers(b) has no marker, equals b with each marker replaced by '?', is idempotent; EscapeBytes(b) is well-formed, line-safe, strips to that text (+ one '?' after a truncated multi-byte sequence), redacts to redacted markers and the line feeds of b, and re-escaping the escaped text changes nothing (library Redact/StripMarkers cross-checked up to length 6 and on the symbol alphabet)",
 		"b contains a marker or a line feed or ends in a truncated multi-byte sequence",
-		fmt.Sprintf("all byte strings of length <= %d over {E2,80,B9,BA,'a',' ',LF,'?'} plus all strings of <= %d symbols over {start,end,E2,E2 80,80,B9,BA,'a',' ',LF,'?'}", nBytes, nPieces), ok)
+		fmt.Sprintf("all byte strings of length <= %d over {E2,80,B9,BA,'a',' ',LF,'?'} plus all strings of <= %d symbols over {start,end,E2,E2 80,80,B9,BA,'a',' ',LF,'?'}", nBytes, nPieces)+nm, ok)
 	c10Bound(total.internal,
 		"escape.InternalEscapeBytes(b, startLoc, breakNewLines, false): bytes not part of a marker unchanged, every marker of b[startLoc:] replaced by '?', exact result without line splitting, well-formed / line-safe / same nesting / no partial marker at the end, only line feeds of the suffix leave the envelope, '?' guard iff truncated ending, input not modified, idempotent",
 		"b[startLoc:] contains a marker, or a line feed with line splitting on, or b ends in a truncated multi-byte sequence",
-		fmt.Sprintf("all byte strings of length <= %d over the byte alphabet and all strings of <= %d symbols over the symbol alphabet, EVERY startLoc whose prefix is an admissible escaped prefix, both line-splitting settings", nInternal, nPieces), ok)
+		fmt.Sprintf("all byte strings of length <= %d over the byte alphabet and all strings of <= %d symbols over the symbol alphabet, EVERY startLoc whose prefix is an admissible escaped prefix, both line-splitting settings", nInternal, nPieces)+nm, ok)
 	c10Bound(total.chained,
 		"two successive escapes the way Buffer.escapeToEnd chains them (first chunk escaped, second chunk appended and escaped from the end of the first result): first result is an admissible prefix, all laws of the routine hold for both calls, content is chunk1 escaped + chunk2 escaped",
 		"the escaped suffix of the call contains a marker, or a line feed with line splitting on, or a truncated ending",
-		fmt.Sprintf("all byte strings of length <= %d over the byte alphabet and <= %d symbols over the symbol alphabet, every split position, both line-splitting settings", nSplit, nPieces), ok)
+		fmt.Sprintf("all byte strings of length <= %d over the byte alphabet and <= %d symbols over the symbol alphabet, every split position, both line-splitting settings", nSplit, nPieces)+nm, ok)
 	c10Bound(total.split,
 		"builder.StringBuilder: a payload written by UnsafeString/UnsafeBytes/Write/WriteString (resp. SafeString/SafeBytes) in one call, split in two at every byte position, or byte by byte, gives byte-identical output; the unsplit output is well-formed, line-safe, strips to the escaped payload (+ guard) and keeps unsafe bytes inside envelopes; contexts: bare, other-mode text around, after a pre-redactable",
 		"the split position separates bytes of one marker occurrence or of one multi-byte sequence (for unsplit/bytewise cases: the payload contains a marker)",
-		fmt.Sprintf("all byte strings of length <= %d over the byte alphabet and strings of <= %d symbols (<= 9 bytes) over the symbol alphabet, every split position, 3 contexts, both modes", nSplit, nPieces), ok)
+		fmt.Sprintf("all byte strings of length <= %d over the byte alphabet and strings of <= %d symbols (<= 9 bytes) over the symbol alphabet, every split position, 3 contexts, both modes", nSplit, nPieces)+nm, ok)
 	c10Bound(total.sampled,
 		"all laws above on random longer strings (public laws on each; internal routine at 4 random offsets x 2 settings; chained and split on every 8th)",
 		"as for the individual laws",
-		fmt.Sprintf("%d seeded random strings (VERIF_SEED=%d) of %d to %d bytes over the symbol alphabet extended with C3, C3 97, F0 9F, FF, LF LF", nSample, seed, nBytes+1, nBytes+43), false)
+		fmt.Sprintf("%d seeded random strings (VERIF_SEED=%d) of %d to %d bytes over the symbol alphabet extended with the 10 near-miss sequences, C3, C3 97, F0 9F, FF, LF LF", nSample, seed, nBytes+1, nBytes+43), false)
 }
